@@ -37,6 +37,9 @@ type Prop struct {
 	Budget func(tier string) time.Duration
 	// MemKB is the address-space limit of a worker (ulimit -v), default 4 GiB.
 	MemKB int
+	// MemKBUnit, if set and non-zero for a unit, overrides MemKB for that unit (a unit that has to
+	// hold several GiB of well-formed input).
+	MemKBUnit func(unit string) int
 	// Serial forces one worker at a time (for units that are parallel inside).
 	Serial bool
 }
